@@ -268,3 +268,66 @@ func commonAssumptions() []string {
 		"path enumeration unrolls each loop a bounded number of times (quick: each block at most 2 visits per activation, thorough: 3)",
 	}
 }
+
+// Borrow runs the rules of another property and takes over the obligations, floors and
+// rule texts of the rules whose id starts with one of the given prefixes, under this
+// property's own rule id (from "C09.prune-guard" to e.g. "C03.delete-prune").  It is how a
+// clause that is a necessary condition of several properties is decided by one rule
+// implementation and reported by each property it matters to.
+var borrowCache = map[string]*Ctx{}
+
+func (c *Ctx) Borrow(from string, rename map[string]string, why string) {
+	pd := props[from]
+	if pd == nil {
+		c.Unresolved(c.Prop+".borrow", "property "+from)
+		return
+	}
+	key := from + "/" + c.Tier
+	child := borrowCache[key]
+	if child == nil {
+		child = NewCtx(c.P, from, c.Tier)
+		pd.Run(child)
+		borrowCache[key] = child
+	}
+	match := func(rule string) (string, bool) {
+		best := ""
+		for p := range rename {
+			if (rule == p || strings.HasPrefix(rule, p+"/")) && len(p) > len(best) {
+				best = p
+			}
+		}
+		if best == "" {
+			return "", false
+		}
+		return rename[best] + strings.TrimPrefix(rule, best), true
+	}
+	n := 0
+	for _, o := range child.Obs {
+		if nr, ok := match(o.Rule); ok {
+			c.add(nr, o.Func, o.Construct, o.Verdict, o.Pos, o.Detail)
+			n++
+		}
+	}
+	for r, t := range child.Rules {
+		if nr, ok := match(r); ok {
+			c.Rules[nr] = t + "  [" + why + "; decided by the rule implementation of " + r + "]"
+		}
+	}
+	for r, f := range child.Floors {
+		if nr, ok := match(r); ok {
+			c.Floors[nr] = f
+		}
+	}
+	// anchors of the lending property that no longer resolve make the borrowed clause undecidable
+	for _, u := range child.Unres {
+		c.Unresolved(c.Prop+".borrow", from+": "+u)
+	}
+	for f := range child.Funcs {
+		c.Funcs[f] = true
+	}
+	c.Paths += child.Paths
+	c.Scen += child.Scen
+	if n == 0 {
+		c.add(c.Prop+".borrow", "-", "no obligation of "+from+" matches the borrowed rules", Violated, "", "the lending rule produced nothing (renamed or removed)")
+	}
+}
